@@ -28,6 +28,8 @@ def expected_refusal(src, cfg):
         return r"REJECT cannot be used with -f or -F"
     if full and cfg.get("lexcompat"):
         return r"incompatible"
+    if "F" in t and cfg.get("flavour") == "cxx":
+        return r"Can't use -\+ with -CF"
     return None
 
 
